@@ -206,6 +206,7 @@ pub fn probe(tag: &'static str, value: u64) {
 }
 
 /// Marks the execution as having used something the model does not support.
+#[allow(dead_code)]
 fn unsupported(what: &str) -> ! {
     EXEC.with(|e| e.borrow_mut().unsupported = Some(what.to_owned()));
     panic!("VERIF-UNSUPPORTED: {what}");
@@ -345,6 +346,12 @@ pub mod chan {
         cap: Option<usize>,
         senders: usize,
         receivers: usize,
+        /// rendezvous (zero-capacity) channels only: sequence numbers of the messages in `q`, the number
+        /// of the last message taken by a receiver, the number handed out last, receivers blocked in `recv`
+        seqs: VecDeque<u64>,
+        taken: u64,
+        sent: u64,
+        waiting_recv: usize,
     }
 
     struct Shared<T> {
@@ -435,7 +442,6 @@ pub mod chan {
 
     fn new_chan<T>(cap: Option<usize>) -> (Sender<T>, Receiver<T>) {
         let cap = match cap {
-            Some(0) => super::unsupported("zero-capacity (rendezvous) channel"),
             Some(16) => Some(KNOBS.with(|k| k.borrow().hashq_cap).unwrap_or(16)),
             other => other,
         };
@@ -456,6 +462,10 @@ pub mod chan {
                 cap,
                 senders: 1,
                 receivers: 1,
+                seqs: VecDeque::new(),
+                taken: 0,
+                sent: 0,
+                waiting_recv: 0,
             }),
             cv: Condvar::new(),
         });
@@ -497,7 +507,13 @@ pub mod chan {
 
     impl<T> Shared<T> {
         fn len(&self) -> usize {
-            self.m.lock().unwrap().q.len()
+            let g = self.m.lock().unwrap();
+            // a rendezvous channel never holds a message (a pending one belongs to its blocked sender)
+            if g.cap == Some(0) {
+                0
+            } else {
+                g.q.len()
+            }
         }
         fn capacity(&self) -> Option<usize> {
             self.m.lock().unwrap().cap
@@ -521,6 +537,37 @@ pub mod chan {
                     }
                     record(op::SEND_DISC, id, 0);
                     return Err(SendError(msg));
+                }
+                if g.cap == Some(0) {
+                    // rendezvous: offer the message, then stay blocked until a receiver has taken it
+                    g.sent += 1;
+                    let my = g.sent;
+                    g.q.push_back(msg);
+                    g.seqs.push_back(my);
+                    note_block(id, true);
+                    set_state(ThreadState::BlockedSend(id));
+                    record(op::SEND_BLOCK, id, 0);
+                    self.0.cv.notify_all();
+                    loop {
+                        if g.taken >= my {
+                            drop(g);
+                            set_state(ThreadState::Running);
+                            record(op::SEND, id, 0);
+                            return Ok(());
+                        }
+                        if g.receivers == 0 {
+                            // nobody will ever take it: withdraw the offer
+                            if let Some(pos) = g.seqs.iter().position(|s| *s == my) {
+                                g.seqs.remove(pos);
+                                let back = g.q.remove(pos).expect("message of a pending rendezvous");
+                                drop(g);
+                                set_state(ThreadState::Running);
+                                record(op::SEND_DISC, id, 0);
+                                return Err(SendError(back));
+                            }
+                        }
+                        g = self.0.cv.wait(g).unwrap();
+                    }
                 }
                 if g.cap.map_or(true, |c| g.q.len() < c) {
                     g.q.push_back(msg);
@@ -548,6 +595,20 @@ pub mod chan {
             let mut g = self.0.m.lock().unwrap();
             if g.receivers == 0 {
                 return Err(TrySendError::Disconnected(msg));
+            }
+            if g.cap == Some(0) {
+                // rendezvous: succeeds only if a receiver is blocked in `recv` and not yet served
+                if g.waiting_recv > g.q.len() {
+                    g.sent += 1;
+                    let my = g.sent;
+                    g.q.push_back(msg);
+                    g.seqs.push_back(my);
+                    record(op::SEND, id, 0);
+                    self.0.cv.notify_all();
+                    return Ok(());
+                }
+                record(op::TRY_SEND_FULL, id, 0);
+                return Err(TrySendError::Full(msg));
             }
             if g.cap.map_or(true, |c| g.q.len() < c) {
                 g.q.push_back(msg);
@@ -586,6 +647,12 @@ pub mod chan {
             let mut blocked = false;
             loop {
                 if let Some(v) = g.q.pop_front() {
+                    if let Some(sq) = g.seqs.pop_front() {
+                        g.taken = sq;
+                    }
+                    if blocked {
+                        g.waiting_recv -= 1;
+                    }
                     let len = g.q.len();
                     note_len(id, len);
                     if blocked {
@@ -596,6 +663,9 @@ pub mod chan {
                     return Ok(v);
                 }
                 if g.senders == 0 {
+                    if blocked {
+                        g.waiting_recv -= 1;
+                    }
                     drop(g);
                     if blocked {
                         set_state(ThreadState::Running);
@@ -605,6 +675,7 @@ pub mod chan {
                 }
                 if !blocked {
                     blocked = true;
+                    g.waiting_recv += 1;
                     note_block(id, false);
                     set_state(ThreadState::BlockedRecv(id));
                     record(op::RECV_BLOCK, id, 0);
@@ -617,6 +688,9 @@ pub mod chan {
             let id = self.0.id;
             let mut g = self.0.m.lock().unwrap();
             if let Some(v) = g.q.pop_front() {
+                if let Some(sq) = g.seqs.pop_front() {
+                    g.taken = sq;
+                }
                 let len = g.q.len();
                 note_len(id, len);
                 record(op::RECV, id, len);
@@ -723,7 +797,13 @@ pub mod chan {
             if g.receivers == 0 {
                 // crossbeam discards buffered messages when the last
                 // receiver goes away.
-                let pending: Vec<T> = g.q.drain(..).collect();
+                // (the pending offers of a rendezvous channel are withdrawn by
+                // their blocked senders themselves)
+                let pending: Vec<T> = if g.cap == Some(0) {
+                    Vec::new()
+                } else {
+                    g.q.drain(..).collect()
+                };
                 self.0.cv.notify_all();
                 drop(g);
                 drop(pending);
